@@ -446,3 +446,24 @@ def extra_C18(rng, tier, st, cov):
         shutil.rmtree(work, ignore_errors=True)
     cov.setdefault('extra', {})['c18'] = {k: (v if not isinstance(v, list) else {'min': min(v) if v else 0, 'max': max(v) if v else 0, 'n': len(v)}) for k, v in stats.items()}
     return out
+
+
+# ---- standard engines (C++-only differential): C03, C05, C10 ----------------------------------------
+def _engine_extra(pid):
+    def f(rng, tier, st, cov):
+        import tie
+        out = []; total_ok = 0; seeds = [rng.getrandbits(30) for _ in range(2 if tier == 'quick' else 12)]
+        for s in seeds:
+            fails, ok = tie.run_engines(s)
+            total_ok += ok
+            for l in fails:
+                parts = l.split(' ', 2)
+                if len(parts) == 3 and parts[1] == pid:
+                    out.append(viol('standard engines: ' + parts[2], [], {'engine_driver_seed': s}))
+        cov.setdefault('extra', {})['standard_engine_checks'] = {'seeds': len(seeds), 'checks_passed_all_properties': total_ok,
+            'engines': 'minstd_rand0 minstd_rand mt19937 mt19937_64 ranlux24_base ranlux48_base ranlux24 ranlux48 knuth_b + synthetic ranges 3, 1000, 65537', 'types': 'float double long double'}
+        return out
+    return f
+extra_C03 = _engine_extra('C03')
+extra_C05 = _engine_extra('C05')
+extra_C10 = _engine_extra('C10')
